@@ -505,7 +505,41 @@ fn bg_mode(inputs: &[Value], si: usize, sn: usize, out: &mut TraceOut, pend: &Pe
         let pattern = inp["pattern"].as_str().unwrap_or("none").to_string();
         let observe_intervals = inp["observe"].as_u64().unwrap_or(4);
         let mut ev = json!({"ev": "bg", "input": inp});
-        if pattern == "sync" {
+        if pattern == "sync-busy" {
+            // every periodic sync meets a writer that sits inside the writer lock: the sync has to wait
+            // for it and must still force the file (a tick that is skipped is a missed interval)
+            let cfg = json!({"sync": {"interval_ms": interval}, "max_file_size": 1_000_000});
+            shim::start(&dir, false);
+            let kv = make_config(&dir, &cfg).open().expect("open");
+            let h = kv.get_handle();
+            let t_end = Instant::now() + Duration::from_millis(interval * observe_intervals);
+            let mut j = 0u64;
+            while Instant::now() < t_end {
+                arm("write.appended");
+                let h2 = h.clone();
+                let w = std::thread::spawn(move || h2.set(Bytes::from(format!("key{}", j % 5)), Bytes::from(vec![b'x'; 60])));
+                let parked = wait_parked(Duration::from_secs(2));
+                if parked {
+                    // hold the writer lock until the next tick has fired, and a little longer
+                    let seen = points("bg.sync.woke").len();
+                    wait_until(|| points("bg.sync.woke").len() > seen, Duration::from_millis(interval * 3));
+                    std::thread::sleep(Duration::from_millis(25));
+                }
+                release();
+                let _ = w.join();
+                j += 1;
+            }
+            disarm();
+            std::thread::sleep(Duration::from_millis(interval + 50));
+            let calls = shim::take_calls();
+            ev["sync_wakes"] = json!(points("bg.sync.woke"));
+            ev["fsyncs"] = json!(calls.iter().filter(|c| c.kind == "fsync").map(|c| json!({"file": c.file, "id": c.file.split('.').next().and_then(|x| x.parse::<i64>().ok()).unwrap_or(-1), "data": c.file.ends_with(".bitcask.data")})).collect::<Vec<_>>());
+            ev["actives"] = json!([]);
+            ev["interval_ms"] = json!(interval);
+            ev["observed_ms"] = json!(now_ms());
+            drop(kv);
+            shim::stop();
+        } else if pattern == "sync" {
             // interval sync: which file is fsynced when, across rotations of the active file
             let cfg = json!({"sync": {"interval_ms": interval}, "max_file_size": 300});
             shim::start(&dir, false);
@@ -542,6 +576,9 @@ fn bg_mode(inputs: &[Value], si: usize, sn: usize, out: &mut TraceOut, pend: &Pe
             let cfg = json!({"merge": {"policy": policy, "check_interval_ms": interval, "check_jitter": jitter,
                                        "triggers": {"fragmentation": 0.5, "dead_bytes": 300},
                                        "thresholds": {"fragmentation": 0.1, "dead_bytes": 50, "small_file": 0}}});
+            if pattern == "frag-fault" {
+                shim::start(&dir, false);
+            }
             let kv = make_config(&dir, &cfg).open().expect("open");
             let h = kv.get_handle();
             let val = |n: usize| Bytes::from(vec![b'v'; n]);
@@ -581,6 +618,20 @@ fn bg_mode(inputs: &[Value], si: usize, sn: usize, out: &mut TraceOut, pend: &Pe
                         let _ = h.set(Bytes::from(format!("k{j}")), val(1));
                     }
                 }
+                // as "frag", and the first background merge fails (its hint-file create): the trigger is
+                // still exceeded afterwards, so the merge must be tried again within the next interval
+                "frag-fault" => {
+                    for j in 0..4 {
+                        let _ = h.set(Bytes::from(format!("k{j}")), val(1));
+                    }
+                    for r in 0..2 {
+                        for j in 0..4 {
+                            let _ = h.set(Bytes::from(format!("k{j}")), val(1 + r));
+                        }
+                    }
+                    // 12 writes and the open's create so far; the merge issues create(data) then create(hint)
+                    shim::fail_at(shim::mutating_seen() + 1, libc::ENOSPC);
+                }
                 p => panic!("pattern {p}"),
             }
             let crossed_at = now_ms();
@@ -597,6 +648,9 @@ fn bg_mode(inputs: &[Value], si: usize, sn: usize, out: &mut TraceOut, pend: &Pe
             ev["hint_files"] = json!(list_files(&dir, "hint").len());
             ev["observed_ms"] = json!(now_ms());
             drop(kv);
+            if pattern == "frag-fault" {
+                shim::stop();
+            }
         }
         pend.clear();
         out.emit(&ev);
